@@ -13,6 +13,8 @@ Streams
   gen.romconst the deserializer constant inside the ROM is the one the native path passes
   gen.oracle07 the property on the implementation alone: accept/reject alike, equal summaries, native never costs more,
                only asymmetry = legacy exhausting cost / interpreter limits
+  gen.oracle07sig  the same with signature validation ENABLED: identity signature, a non-identity G2 point, and the
+               correct aggregate of the block's AGG_SIG pairs (harness keys); both paths must agree each time
 """
 import os, sys, json
 sys.path.insert(0, os.path.dirname(os.path.dirname(os.path.abspath(__file__))))
@@ -129,6 +131,24 @@ def oracle(rep, cases, listed):
     rep.evaluations += len(lines)
 
 
+def oracle_sig(rep, cases):
+    """signature validation ENABLED (the other streams run with the default signature, mostly under
+    DONT_VALIDATE_SIGNATURE): every case the native path accepts is re-run on both paths with the identity signature, a
+    fixed non-identity G2 point and, when the block has AGG_SIG pairs under harness keys, the correct aggregate"""
+    pick = [c for c in cases if len(c.get("impl") or []) == 3 and c["impl"][1].startswith("OK") and len(c["program"]) < 20000]
+    lines = ["gen.oracle07sig %d %d %s %s" % (c["flags"], c["max_cost"], G.hexo(c["program"]), G.refs_tok(c["refs"])) for c in pick]
+    outs = G.vh(lines)
+    from collections import Counter
+    cl = Counter()
+    for l, o in zip(lines, outs):
+        cl[" ".join(t for t in o.split(" ## ")[-1].split(" ") if not t.startswith("pairs=") or t == "pairs=0")[:120]] += 1
+        if not o.startswith("OK"):
+            rep.add_failure("gen.oracle07sig", l, o, "OK", "with signature validation enabled the two real generator paths disagree "
+                                                           "(or the native path accepts a wrong / rejects a correct aggregate signature)")
+    rep.streams["gen.oracle07sig"] = {"cases": len(lines), "classes": dict(cl.most_common(12))}
+    rep.evaluations += len(lines)
+
+
 def run(ctx):
     rep, tier = ctx["rep"], ctx["tier"]
     rng = C.SplitMix64(ctx["seed"])
@@ -138,10 +158,10 @@ def run(ctx):
         f = json.load(open(ctx["replay"]))
         fi = f["failing_input"]
         line = fi["case"]
-        if fi["stream"] == "gen.oracle07":
+        if fi["stream"] in ("gen.oracle07", "gen.oracle07sig"):
             o = G.vh([line])[0]
             if not o.startswith("OK"):
-                rep.add_failure("gen.oracle07", line, o, "OK", "replayed: the two real generator paths disagree")
+                rep.add_failure(fi["stream"], line, o, "OK", "replayed: the two real generator paths disagree")
         elif line.startswith("gen.case"):
             run_both(rep, fi["stream"], [G.parse_case_line(line)], env, ctx["have_model"])
         else:
@@ -235,6 +255,7 @@ def run(ctx):
     if lim:
         run_both(rep, "gen.limits", lim, env, ctx["have_model"])
     oracle(rep, cases + lim + impl_only, listed)
+    oracle_sig(rep, cases)
     rep.streams["gen.oracle07"]["implementation_only_files"] = sorted({t[1] for c in impl_only for t in c["tags"]})
 
     # dependencies: back-reference reader and interning
